@@ -56,7 +56,7 @@ func enumeratorCorrespondence(c *ctx, rounds int) string {
 		}
 		want := ask(c, sx.L(sx.N(zh.ReqEnum), sx.List(wire)))
 		if _, isErr := sx.IsErr(want); isErr {
-			must(fmt.Errorf("model rejected the enumerator request"))
+			mustH(fmt.Errorf("model rejected the enumerator request"))
 		}
 		c.Count("enumerator_runs")
 		if zero {
